@@ -1,21 +1,354 @@
 package main
 
+// Go maps: a map value is a reference (0 = nil map) into three heaps per map
+// type: domain (key -> bool), values (key -> leaf) and cardinality.
+
 import (
-	"golang.org/x/tools/go/ssa"
+	"fmt"
 	"go/types"
+	"sort"
+	"strings"
+
+	"golang.org/x/tools/go/ssa"
 )
 
-func (e *Engine) makeMap(st *State, t types.Type) Val                 { panic(unsupported("make map")) }
-func (e *Engine) mapCard(st *State, m Val) Term                      { panic(unsupported("len(map)")) }
-func (e *Engine) mapDelete(st *State, m, k Val)                      { panic(unsupported("delete")) }
-func (e *Engine) mapValueAt(st *State, m, k Val) Val                 { panic(unsupported("map index")) }
-func (e *Engine) execLookup(st *State, fr *Frame, x *ssa.Lookup, pos string) { panic(unsupported("map lookup")) }
-func (e *Engine) execMapUpdate(st *State, fr *Frame, x *ssa.MapUpdate, pos string) {
-	panic(unsupported("map update"))
+type mapInfo struct {
+	key   types.Type
+	val   types.Type
+	ksort Sort
+	tag   string
 }
-func (e *Engine) execRange(st *State, fr *Frame, x *ssa.Range) { panic(unsupported("range")) }
-func (e *Engine) execNext(st *State, fr *Frame, x *ssa.Next, k callCont) { panic(unsupported("next")) }
-func (e *Engine) havocMaps(st *State)                                   {}
-func (e *Engine) havocMap(st *State, m Val)                             {}
-func (e *Engine) mapFrame(st *State, assigned []Val) []Term             { return nil }
-func (e *Engine) mapsUnchanged(st, old *State) []Term                   { return nil }
+
+func mapTypeOf(t types.Type) *types.Map {
+	if m, ok := t.Underlying().(*types.Map); ok {
+		return m
+	}
+	if tp, ok := t.(*types.TypeParam); ok {
+		if c := coreOf(tp); c != nil {
+			if m, ok := c.(*types.Map); ok {
+				return m
+			}
+		}
+	}
+	return nil
+}
+
+func (e *Engine) mapInfo(t types.Type) mapInfo {
+	m := mapTypeOf(t)
+	if m == nil {
+		panic(unsupported("not a map type: %s", t))
+	}
+	k := resolve(m.Key(), nil)
+	v := resolve(m.Elem(), nil)
+	kl := e.lay.Leaves(k)
+	if len(kl) != 1 {
+		panic(unsupported("map key type %s with %d leaves", k, len(kl)))
+	}
+	return mapInfo{key: k, val: v, ksort: kl[0].Sort, tag: typeKey(k) + "__" + typeKey(v)}
+}
+
+func (e *Engine) mapDomKey(mi mapInfo) string  { return "MD_" + mi.tag }
+func (e *Engine) mapCardKey(mi mapInfo) string { return "MC_" + mi.tag }
+func (e *Engine) mapValKey(mi mapInfo, leaf int) string {
+	return fmt.Sprintf("MV_%s_%d", mi.tag, leaf)
+}
+
+func (e *Engine) getMapHeap(st *State, key string, sort Sort) Term {
+	if t, ok := st.mapHeap[key]; ok {
+		return t
+	}
+	return e.ctx.Const(key+"_0", sort)
+}
+
+func (e *Engine) mapDom(st *State, mi mapInfo) Term {
+	return e.getMapHeap(st, e.mapDomKey(mi), ArrSort(SInt, ArrSort(mi.ksort, SBool)))
+}
+func (e *Engine) mapCardHeap(st *State, mi mapInfo) Term {
+	return e.getMapHeap(st, e.mapCardKey(mi), ArrSort(SInt, SInt))
+}
+func (e *Engine) mapVal(st *State, mi mapInfo, leaf int) Term {
+	ls := e.lay.Leaves(mi.val)
+	return e.getMapHeap(st, e.mapValKey(mi, leaf), ArrSort(SInt, ArrSort(mi.ksort, ls[leaf].Sort)))
+}
+
+// mapWF: the facts tying cardinality to the domain, for the current heaps of one map type.
+func (e *Engine) mapWF(st *State, mi mapInfo) Term {
+	dom := e.mapDom(st, mi)
+	card := e.mapCardHeap(st, mi)
+	wit := e.ctx.Fun("mapwit_"+sanitize(string(mi.ksort)), []Sort{ArrSort(mi.ksort, SBool)}, mi.ksort)
+	nonneg := T(SBool, "(forall ((q_r Int)) (! (<= 0 (select %s q_r)) :pattern ((select %s q_r))))", card.S, card.S)
+	pos := T(SBool, "(forall ((q_r Int) (q_k %s)) (! (=> (select (select %s q_r) q_k) (< 0 (select %s q_r))) :pattern ((select (select %s q_r) q_k))))", mi.ksort, dom.S, card.S, dom.S)
+	witness := T(SBool, "(forall ((q_r Int)) (! (=> (< 0 (select %s q_r)) (select (select %s q_r) (%s (select %s q_r)))) :pattern ((select %s q_r))))", card.S, dom.S, wit, dom.S, card.S)
+	nilmap := T(SBool, "(and (= (select %s 0) 0) (forall ((q_k %s)) (! (not (select (select %s 0) q_k)) :pattern ((select (select %s 0) q_k)))))", card.S, mi.ksort, dom.S, dom.S)
+	return And(nonneg, pos, witness, nilmap)
+}
+
+func (e *Engine) touchMap(st *State, mi mapInfo) {
+	k := e.mapDomKey(mi)
+	if _, ok := st.mapHeap[k]; !ok {
+		st.mapHeap[k] = e.mapDom(st, mi)
+		st.mapHeap[e.mapCardKey(mi)] = e.mapCardHeap(st, mi)
+		for i := range e.lay.Leaves(mi.val) {
+			st.mapHeap[e.mapValKey(mi, i)] = e.mapVal(st, mi, i)
+		}
+		if st.mapTypes == nil {
+			st.mapTypes = map[string]mapInfo{}
+		}
+		st.mapTypes[mi.tag] = mi
+		st.Assume(e.mapWF(st, mi))
+	}
+}
+
+func (e *Engine) makeMap(st *State, t types.Type) Val {
+	mi := e.mapInfo(t)
+	e.touchMap(st, mi)
+	ref := st.next
+	st.next = e.nameTerm(st, "next", Add(st.next, IntLit(1)))
+	dom := e.mapDom(st, mi)
+	card := e.mapCardHeap(st, mi)
+	empty := T(ArrSort(mi.ksort, SBool), "((as const %s) false)", ArrSort(mi.ksort, SBool))
+	st.mapHeap[e.mapDomKey(mi)] = e.nameTerm(st, e.mapDomKey(mi), Store(dom, ref, empty))
+	st.mapHeap[e.mapCardKey(mi)] = e.nameTerm(st, e.mapCardKey(mi), Store(card, ref, IntLit(0)))
+	return Val{T: t, L: []Term{ref}}
+}
+
+func (e *Engine) mapCard(st *State, m Val) Term {
+	mi := e.mapInfo(m.T)
+	e.touchMap(st, mi)
+	return Select(e.mapCardHeap(st, mi), m.L[0])
+}
+
+func (e *Engine) mapHas(st *State, m Val, k Val) Term {
+	mi := e.mapInfo(m.T)
+	e.touchMap(st, mi)
+	return Select(Select(e.mapDom(st, mi), m.L[0]), k.L[0])
+}
+
+func (e *Engine) mapValueAt(st *State, m, k Val) Val {
+	mi := e.mapInfo(m.T)
+	e.touchMap(st, mi)
+	ls := e.lay.Leaves(mi.val)
+	out := Val{T: mi.val, L: make([]Term, len(ls))}
+	has := e.mapHas(st, m, k)
+	for i, lf := range ls {
+		out.L[i] = Ite(has, Select(Select(e.mapVal(st, mi, i), m.L[0]), k.L[0]), e.zeroLeaf(lf))
+	}
+	return out
+}
+
+func (e *Engine) execLookup(st *State, fr *Frame, x *ssa.Lookup, pos string) {
+	m := e.operand(st, fr, x.X)
+	k := e.operand(st, fr, x.Index)
+	if mapTypeOf(m.T) == nil {
+		panic(unsupported("lookup in %s", m.T))
+	}
+	v := e.mapValueAt(st, m, k)
+	rt := resolve(x.Type(), fr.env)
+	if x.CommaOk {
+		res := Val{T: rt, L: append(append([]Term{}, v.L...), e.mapHas(st, m, k))}
+		fr.regs[x] = res
+		return
+	}
+	v.T = rt
+	fr.regs[x] = v
+}
+
+// noteMapWrite marks every active iterator over the written map as modified.
+func (e *Engine) noteMapWrite(st *State, mi mapInfo, ref Term) {
+	for it, tag := range st.iterSnap {
+		if tag == mi.tag {
+			st.iterMod[it] = Or(st.iterMod[it], Eq(ref, st.iterRef[it]))
+		}
+	}
+}
+
+func (e *Engine) mapStore(st *State, m, k, v Val) {
+	mi := e.mapInfo(m.T)
+	e.touchMap(st, mi)
+	ref := m.L[0]
+	e.noteMapWrite(st, mi, ref)
+	dom := e.mapDom(st, mi)
+	card := e.mapCardHeap(st, mi)
+	had := Select(Select(dom, ref), k.L[0])
+	st.mapHeap[e.mapCardKey(mi)] = e.nameTerm(st, e.mapCardKey(mi), Store(card, ref, Add(Select(card, ref), Ite(had, IntLit(0), IntLit(1)))))
+	st.mapHeap[e.mapDomKey(mi)] = e.nameTerm(st, e.mapDomKey(mi), Store(dom, ref, Store(Select(dom, ref), k.L[0], True)))
+	for i := range e.lay.Leaves(mi.val) {
+		h := e.mapVal(st, mi, i)
+		st.mapHeap[e.mapValKey(mi, i)] = e.nameTerm(st, e.mapValKey(mi, i), Store(h, ref, Store(Select(h, ref), k.L[0], v.L[i])))
+	}
+}
+
+func (e *Engine) execMapUpdate(st *State, fr *Frame, x *ssa.MapUpdate, pos string) {
+	m := e.operand(st, fr, x.Map)
+	k := e.operand(st, fr, x.Key)
+	v := e.operand(st, fr, x.Value)
+	e.obligationPanic(st, "nil-map-write", pos, Not(Eq(m.L[0], IntLit(0))))
+	e.mapStore(st, m, k, v)
+}
+
+func (e *Engine) mapDelete(st *State, m, k Val) {
+	mi := e.mapInfo(m.T)
+	e.touchMap(st, mi)
+	ref := m.L[0]
+	e.noteMapWrite(st, mi, ref)
+	dom := e.mapDom(st, mi)
+	card := e.mapCardHeap(st, mi)
+	had := Select(Select(dom, ref), k.L[0])
+	// delete on a nil map is a no-op; the nil map's row is empty, so the same update is exact
+	st.mapHeap[e.mapCardKey(mi)] = e.nameTerm(st, e.mapCardKey(mi), Store(card, ref, Sub(Select(card, ref), Ite(had, IntLit(1), IntLit(0)))))
+	st.mapHeap[e.mapDomKey(mi)] = e.nameTerm(st, e.mapDomKey(mi), Store(dom, ref, Store(Select(dom, ref), k.L[0], False)))
+}
+
+// range over a map: the iterator is a ghost "visited" set plus a counter
+func (e *Engine) execRange(st *State, fr *Frame, x *ssa.Range) {
+	m := e.operand(st, fr, x.X)
+	if mapTypeOf(m.T) == nil {
+		panic(unsupported("range over %s", m.T))
+	}
+	mi := e.mapInfo(m.T)
+	e.touchMap(st, mi)
+	st.iter[x] = T(ArrSort(mi.ksort, SBool), "((as const %s) false)", ArrSort(mi.ksort, SBool))
+	if st.iterCount == nil {
+		st.iterCount = map[ssa.Value]Term{}
+		st.iterSnap = map[ssa.Value]string{}
+	}
+	st.iterCount[x] = IntLit(0)
+	st.iterSnap[x] = mi.tag
+	if st.iterMod == nil {
+		st.iterMod = map[ssa.Value]Term{}
+		st.iterRef = map[ssa.Value]Term{}
+	}
+	st.iterMod[x] = False
+	st.iterRef[x] = m.L[0]
+	fr.regs[x] = m
+	fr.iterOf = x
+}
+
+func (e *Engine) execNext(st *State, fr *Frame, x *ssa.Next, k callCont) {
+	if x.IsString {
+		panic(unsupported("range over string"))
+	}
+	r := x.Iter.(*ssa.Range)
+	m := fr.regs[r]
+	mi := e.mapInfo(m.T)
+	visited := st.iter[r]
+	dom := Select(e.mapDom(st, mi), m.L[0])
+	rt := resolve(x.Type(), fr.env)
+	zk := e.zeroVal(mi.key)
+	zv := e.zeroVal(mi.val)
+	// exhausted
+	st2 := st.Clone()
+	fr2 := fr.cloneForPath()
+	{
+		st2.Assume(T(SBool, "(forall ((q_k %s)) (! (=> (select %s q_k) (select %s q_k)) :pattern ((select %s q_k))))", mi.ksort, dom.S, visited.S, dom.S))
+		// if the map was not modified during the iteration, every entry was visited exactly once
+		st2.Assume(Implies(Not(st2.iterMod[r]), Eq(st2.iterCount[r], Select(e.mapCardHeap(st2, mi), m.L[0]))))
+		st2.path = append(st2.path, "x")
+		res := Val{T: rt, L: append(append([]Term{False}, zk.L...), zv.L...)}
+		k(st2, fr2, res)
+	}
+	// one more entry
+	{
+		key := e.freshVal("rk", mi.key)
+		st.Assume(e.wellFormed(key, st.next))
+		st.Assume(Select(dom, key.L[0]))
+		st.Assume(Not(Select(visited, key.L[0])))
+		st.iter[r] = e.nameTerm(st, "visited", Store(visited, key.L[0], True))
+		st.iterCount[r] = Add(st.iterCount[r], IntLit(1))
+		val := e.mapValueAt(st, m, key)
+		for i := range val.L {
+			val.L[i] = Select(Select(e.mapVal(st, mi, i), m.L[0]), key.L[0])
+		}
+		st.Assume(e.wellFormed(val, st.next))
+		st.path = append(st.path, "n")
+		res := Val{T: rt, L: append(append([]Term{True}, key.L...), val.L...)}
+		k(st, fr, res)
+	}
+}
+
+func (e *Engine) havocMaps(st *State) {
+	var tags []string
+	for t := range st.mapTypes {
+		tags = append(tags, t)
+	}
+	sort.Strings(tags)
+	for _, t := range tags {
+		mi := st.mapTypes[t]
+		st.mapHeap[e.mapDomKey(mi)] = e.ctx.Fresh(e.mapDomKey(mi)+"_hv", ArrSort(SInt, ArrSort(mi.ksort, SBool)))
+		st.mapHeap[e.mapCardKey(mi)] = e.ctx.Fresh(e.mapCardKey(mi)+"_hv", ArrSort(SInt, SInt))
+		for i, lf := range e.lay.Leaves(mi.val) {
+			st.mapHeap[e.mapValKey(mi, i)] = e.ctx.Fresh(e.mapValKey(mi, i)+"_hv", ArrSort(SInt, ArrSort(mi.ksort, lf.Sort)))
+		}
+		st.Assume(e.mapWF(st, mi))
+	}
+}
+
+func (e *Engine) havocMap(st *State, m Val) {
+	mi := e.mapInfo(m.T)
+	e.touchMap(st, mi)
+	ref := m.L[0]
+	e.noteMapWrite(st, mi, ref)
+	st.mapHeap[e.mapDomKey(mi)] = e.nameTerm(st, e.mapDomKey(mi), Store(e.mapDom(st, mi), ref, e.ctx.Fresh("domrow_hv", ArrSort(mi.ksort, SBool))))
+	st.mapHeap[e.mapCardKey(mi)] = e.nameTerm(st, e.mapCardKey(mi), Store(e.mapCardHeap(st, mi), ref, e.ctx.Fresh("card_hv", SInt)))
+	for i, lf := range e.lay.Leaves(mi.val) {
+		h := e.mapVal(st, mi, i)
+		st.mapHeap[e.mapValKey(mi, i)] = e.nameTerm(st, e.mapValKey(mi, i), Store(h, ref, e.ctx.Fresh("valrow_hv", ArrSort(mi.ksort, lf.Sort))))
+	}
+	st.Assume(e.mapWF(st, mi))
+}
+
+// assumeMapWF re-states the cardinality facts for the current heaps (they are invariants of the model).
+func (e *Engine) assumeMapWF(st *State) {
+	var tags []string
+	for t := range st.mapTypes {
+		tags = append(tags, t)
+	}
+	sort.Strings(tags)
+	for _, t := range tags {
+		st.Assume(e.mapWF(st, st.mapTypes[t]))
+	}
+}
+
+// mapFrame: maps allocated before the call and not assignable are unchanged.
+func (e *Engine) mapFrame(st *State, assigned []Val) []Term {
+	var cs []Term
+	for _, k := range sortedKeys(st.mapHeap) {
+		cur := st.mapHeap[k]
+		init := e.ctx.Const(k+"_0", cur.Sort)
+		if cur.S == init.S {
+			continue
+		}
+		var notRef []string
+		for _, a := range assigned {
+			mi := e.mapInfo(a.T)
+			if strings.HasSuffix(k, "_"+mi.tag) || strings.Contains(k, "_"+mi.tag+"_") {
+				notRef = append(notRef, "(not (= q_r "+a.L[0].S+"))")
+			}
+		}
+		guard := "(and (< 0 q_r) (< q_r " + e.next0.S + ")"
+		if len(notRef) > 0 {
+			guard += " " + strings.Join(notRef, " ")
+		}
+		guard += ")"
+		cs = append(cs, T(SBool, "(forall ((q_r Int)) (! (=> %s (= (select %s q_r) (select %s q_r))) :pattern ((select %s q_r))))", guard, cur.S, init.S, cur.S))
+	}
+	return cs
+}
+
+func (e *Engine) mapsUnchanged(st, old *State) []Term {
+	var cs []Term
+	for _, k := range sortedKeys(st.mapHeap) {
+		cur := st.mapHeap[k]
+		var prev Term
+		if p, ok := old.mapHeap[k]; ok {
+			prev = p
+		} else {
+			prev = e.ctx.Const(k+"_0", cur.Sort)
+		}
+		if cur.S == prev.S {
+			continue
+		}
+		cs = append(cs, T(SBool, "(forall ((q_r Int)) (! (=> (and (< 0 q_r) (< q_r %s)) (= (select %s q_r) (select %s q_r))) :pattern ((select %s q_r))))", old.next.S, cur.S, prev.S, cur.S))
+	}
+	return cs
+}
